@@ -50,6 +50,21 @@ def check(spec, rng):
     z3_ = feedz(model(spec, [(Impedance_Load(0j), spec['feed'])]))
     if abs(z3_ - z0) > tol * abs(z0):
         viol.append({'id': 'zero-load-changes-impedance', 'observed': str(z3_ - z0)})
+    # one load object attached to several pulses (a grounded pulse first, if there is one) acts like separate, equal loads
+    m0 = model(spec)
+    npulse = len(m0.pulses)
+    grounded = [p.idx for p in m0.pulses if p.ground.any()]
+    others = [k for k in range(npulse) if k not in grounded]
+    rng.shuffle(others)
+    chosen = grounded[:1] + others[:2]
+    if spec['feed'] not in chosen:
+        chosen.append(spec['feed'])
+    shared = Impedance_Load(zl)
+    zs_ = feedz(model(spec, [(shared, k) for k in chosen]))
+    zp_ = feedz(model(spec, [(Impedance_Load(zl), k) for k in chosen]))
+    if abs(zs_ - zp_) > tol * abs(zp_):
+        viol.append({'id': 'one-load-on-several-pulses-differs-from-separate-equal-loads', 'pulses': chosen,
+                     'expected': str(zp_), 'observed': str(zs_)})
     # circuit loads at this frequency
     f = spec['f']
     s = 2j * np.pi * f * 1e6
@@ -199,6 +214,30 @@ def check(spec, rng):
             if abs(got - exp) > 1e-9 * max(abs(exp), 1e-12):
                 viol.append({'id': 'skin-effect-load-uses-another-wires-conductivity', 'pulse': p.idx + 1,
                              'expected': str(exp), 'observed': str(got)})
+                break
+    # two joined wires with different coats (and, from the generator, different conductor radii): every conductor half carries
+    # the coating inductance of the wire it lies on
+    if len(spec['wires']) > 1:
+        m9 = model(spec)
+        ws = list(m9.geo)
+        coat = {id(ws[0]): (ws[0].r_orig * 2.5, 3.0), id(ws[1]): (ws[1].r_orig * 4.0, 2.2)}
+        for w in ws[:2]:
+            m9.register_load(Insulation_Load(w, *coat[id(w)]), None, w.tag)
+        m9.fix_distributed_loads()
+        for p in m9.pulses:
+            exp = 0j
+            for i, g in enumerate(p.geo):
+                if id(g) not in coat or p.ground[i]:
+                    continue
+                b_, er = coat[id(g)]
+                exp += 1j * omg * mu_0 / (2 * np.pi) * (er - 1) / er * np.log(b_ / g.r_orig) * p.segs[i].seg_len / 2
+            ls = [l for l in m9.loads if p in l.pulses]
+            got = sum(l.impedance(f, p) for l in ls)
+            if ls:
+                got = got / len(ls)
+            if abs(got - exp) > 1e-9 * max(abs(exp), 1e-12):
+                viol.append({'id': 'insulation-load-uses-another-wires-coat-or-radius', 'pulse': p.idx + 1,
+                             'junction': p.geo[0] is not p.geo[1], 'expected': str(exp), 'observed': str(got)})
                 break
     for v in viol:
         v['input'] = spec
